@@ -108,3 +108,25 @@ Print Assumptions convert_preserves.
 
 Example txt_hyp_ex : wf_txt (OFull 2 3 [1;2;3;4;5;6]%Z) /\ ~ txt_rejected_shape (OFull 2 3 [1;2;3;4;5;6]%Z) /\ ~ txt_empty_full (OFull 2 3 [1;2;3;4;5;6]%Z).
 Proof. cbn. repeat split; try lia; intros H; lia. Qed.
+
+(* ---- tex (BrainVisa texture; token level, repaired reader) ---- *)
+From OM Require Import Maths.TexCodec Maths.TexCodecProofs Maths.CscCodec Maths.CscCodecProofs.
+Theorem tex_roundtrip : forall (rnd6 dofz : Z -> Z) (vint : Z -> option Z) nl nc vs,
+  1 <= nl -> 1 <= nc -> nl * nc < ALLOC_MAX -> length vs = (Z.to_nat nl * Z.to_nat nc)%nat ->
+  tex_decode (xview rnd6 dofz vint (tex_encode nl nc vs)) = Ok (OFull nl nc (map rnd6 vs)).
+Proof. exact TexCodecProofs.tex_roundtrip. Qed.
+Print Assumptions tex_roundtrip.
+
+Theorem tex_no_column_rejected : forall (rnd6 dofz : Z -> Z) (vint : Z -> option Z) nl vs,
+  tex_decode (xview rnd6 dofz vint (tex_encode nl 0 vs)) = Err EHeader.
+Proof. exact TexCodecProofs.tex_no_column_rejected. Qed.
+Print Assumptions tex_no_column_rejected.
+
+(* ---- MATLAB sparse CSC conversion: FINITE statement only (every sparsity pattern of every shape listed, values
+   +0.0 / -0.0 / distinct words): read_csc (write_csc m) returns m with its dimensions, entry count and stored zeros.
+   The statement for every sorted bounded map is not proved. *)
+Theorem csc_roundtrip_small :
+  forallb (fun s => csc_sweep (fst s) (snd s) sweep_val)
+    [(0,0);(0,3);(3,0);(1,1);(1,4);(4,1);(2,2);(2,3);(3,2);(3,3);(3,4);(4,3)]%nat = true.
+Proof. exact CscCodecProofs.csc_sweep_all. Qed.
+Print Assumptions csc_roundtrip_small.
